@@ -54,7 +54,26 @@ def check_split_index(rc: RuleCtx, rule: str, m: rm.LoopModel, tag: str, allow_m
         rest, c = split_const(idx)
         a = single_atom(rest)
         if a is not None and a.name in ("int", "floor") and allow_middle:
-            continue       # zero-distance guard: any interior point is acceptable there (checked by R1)
+            # zero-distance guard: the middle index is acceptable only when *every* distance is below machine epsilon
+            # (rounding noise) - under any looser test a segment with a genuine farthest point is split in the middle
+            D = anf.opaque("slot:distance_points", *want_args, array=True)
+            cands = [x_ for x_ in g.a] if g.kind == "and" else [g]
+            noise_ok = False
+            for x_ in cands:
+                if x_.kind == "sign" and x_.b == OPS["<"]:
+                    for at_ in x_.a.all_atoms():
+                        if at_.kind == "fn" and at_.name.startswith("slot:") and len(at_.args) == 3 and all(p.equals(q) for p, q in zip(at_.args, want_args)):
+                            rest_ = x_.a.sub(Rat.from_atom(at_))
+                            ra_ = rest_.neg().atoms()
+                            if len(ra_) == 1 and "finfo" in ra_[0].name and "eps" in ra_[0].name and rest_.neg().equals(Rat.from_atom(ra_[0])):
+                                noise_ok = True
+            if not noise_ok:
+                ok = False
+                res.violation(rule, m.fi.module, m.fi.name, m.loop,
+                              f"{tag}: the middle index is used under a condition other than 'every distance to the chord is below machine epsilon': a segment whose "
+                              "distances are small but not rounding noise is no longer split at its farthest point", _short(g, 200),
+                              "np.all(d < np.finfo(float).eps)", construct=f"zero-distance guard {tag.split('[')[0]}")
+            continue
         seen += 1
         good = False
         why = "not an argmax of the distance vector"
